@@ -26,7 +26,8 @@ var Def = driver.PropDef{
 		"R2 every RedisCommands entry, read under that convention, treats exactly Redis 5.0's key positions as keys and starts the non-key tail right after the last key group, for every valid arity (both sides are linear in the arity on each residue class, compared on two members per class); " +
 		"R3 prefix, kept groups and tail flow into the rebuilt vector at consecutive positions and the allocated length is their sum; an entry whose first key is not the first argument needs the prefix copy; " +
 		"R4 pass <=> at least one key passed, the wrapper returns !pass as reject and the original vector when no list is configured / the command is unknown / argv is empty, the caller forwards the returned vector and skips on reject; " +
-		"R5 keys are tested with FilterKey on args[index] and kept exactly when it returns false.",
+		"R5 keys are tested with FilterKey on args[index] and kept exactly when it returns false; " +
+		"R7 the value that indexes the (lower-case keyed, exactly matched) command table is, on every way from the bytes decoded from the source to the index expression, the whole-string lower-case fold of the command name.",
 	NotDecided: "argument contents; commands absent from the table (forwarded unchanged by design); eval-style dynamic key positions.",
 	Trusted:    []string{"go/parser, go/types, go/cfg (x/tools v0.29.0)", "Redis 5.0 command table (first, last, step, arity) as transcribed in this file"},
 	Run:        Run,
@@ -97,6 +98,7 @@ func run(c *core.Ctx) {
 		c.Expect("R5.predicate", 2)
 		c.Expect("R4.verdict", 8)
 		c.Expect("R4.caller", 2)
+		c.Expect("R7.casefold", 1)
 	}()
 	// ---- R1 interpreter convention
 	it := &interp{c: c, fn: gmk, info: pk.TypesInfo}
@@ -111,6 +113,8 @@ func run(c *core.Ctx) {
 
 	// ---- table
 	entries, tpos := table(c, it, wrap, gmk)
+	// ---- R7 the name the table is indexed with
+	casefold(c, it.tableObj)
 	if entries == nil {
 		return
 	}
@@ -242,6 +246,7 @@ func table(c *core.Ctx, it *interp, wrap, gmk *core.Fn) ([]entry, token.Pos) {
 		c.Undecidedf("R2.table", "table", wrap.Decl.Pos(), "cannot find the command table consulted before getMatchKeys")
 		return nil, token.NoPos
 	}
+	it.tableObj = mapObj
 	var lit *ast.CompositeLit
 	for _, f := range wrap.Pkg.Syntax {
 		ast.Inspect(f, func(n ast.Node) bool {
